@@ -116,7 +116,7 @@ type c18In struct {
 	Slow     bool     `json:"slow,omitempty"`     // tcpfail: nobody answers the stream close, Close sits out ConnectTimeout (1 s)
 	Script   [][2]int `json:"script,omitempty"`   // conn: (n, err?) returned by the successive conn.Write calls, then (len, nil); after an error every write fails
 	Recv     bool     `json:"recv,omitempty"`     // conn: a real Client receive loop blocked in Read on the same connection, sharing quit
-	Variant  string   `json:"variant,omitempty"`  // re: plain (drop, Resume) | staleclose (stream error, keep-alive fails while the receiver sits in Close, Resume) | hookfail (first Resume's PostResumeHook fails)
+	Variant  string   `json:"variant,omitempty"`  // re: plain (drop, Resume) | staleclose (stream error, keep-alive fails while the receiver sits in Close, Resume) | hookfail (first Resume's PostResumeHook fails) | serrmgr (stream error; the StreamError handler disconnects, backs off and resumes before it returns, as a StreamManager does)
 	TLS      string   `json:"tls,omitempty"`      // e2e: "" plain TCP | verify (STARTTLS, RootCAs) | skip (STARTTLS, InsecureSkipVerify)
 	End      string   `json:"end,omitempty"`      // e2e: drop (server resets) | srvclose (server sends </stream:stream>) | disconnect (Client.Disconnect)
 	Suffix   []int    `json:"suffix,omitempty"`   // model only: what the schedule goes on offering (0 tick, 1 quit)
@@ -135,7 +135,7 @@ func (c18) Workers() int  { return 8 }
 // driver then finds the case through the per-worker journal.
 func (c18) Journal() bool { return true }
 func (c18) Rule() string {
-	return "keepalive goroutine (VerifKeepalive) on a recording stub transport, intervals 1-10 ms: run for T then close quit; quit closed at a random phase of the ticker (0-5 intervals + 0-99 %, incl. exactly on a tick); quit closed before the goroutine starts; Ping failing at the k-th call for every k in 1..10 x interval; interval 0 / negative. Real XMPPTransport over loopback TCP (scripted server records every byte after the stream header): healthy run, server resets / closes the connection after reading n bytes (Close waiting out its timeout or answered at once). Real XMPPTransport over a scripted net.Conn: every conn.Write / conn.Close call, scripted write results (short counts, errors; after an error the connection stays dead for writing while reads block), with and without a real Client receive loop blocked on the same connection and sharing quit: the connection must get closed after the failed keep-alive and the loss be reported (ErrorHandler, Disconnected). End to end: real Client.Connect (KeepaliveInterval 2-5 ms) against the scripted XMPP server (SASL PLAIN + bind), session up for T, then ended by a server reset / the server's </stream:stream> / Client.Disconnect at a random phase; Ping and Close calls logged by a wrapper around the client's transport, keep-alive bytes counted at the server; after the Disconnected event + grace nothing may be pinged for 10 more intervals; the same over real STARTTLS with the certificate verified (RootCAs) and with InsecureSkipVerify: the keep-alive bytes must show up in the DECRYPTED stream at the server, the raw socket must carry nothing but TLS records, the session must not be torn down while it is up. WebSocket transport end to end (loopback nhooyr.io/websocket server, RFC 7395 open exchange, keepalive + receive loop started as Client.Connect does): pings answered for T, then the TCP connection underneath is reset / closed: the failed keep-alive (a WebSocket ping control frame, not whitespace: only the closed-so-that-the-loss-is-reported clause is checked there) the loss must be reported exactly once (ErrorHandler + Disconnected) by whichever path notices first - the transport's reader or the failing keep-alive, which then calls Close - and the keep-alive loop be over; and a peer that goes SILENT without closing (a TCP relay stops forwarding; reads just block): only the keep-alive can notice, its ping times out after the library's 5 s, Close follows, the loss is reported once. Sessions on ONE Client object (the Transport is re-used by Resume; every Ping/Close logged with its goroutine, keep-alive bytes counted per server connection): drop then Resume; a stream error during which the keep-alive fails while the receiver sits in Close (ConnectTimeout 1 s), then Resume: the Close entered for session 1 must not close session 2's connection; a PostResumeHook that fails once: exactly one keep-alive loop per established session, none left by the failed attempt, its session closed. A negative KeepaliveInterval through NewClient/Connect (a crash of the library's goroutine is found through the crash journal). WebSocket: Disconnect while a keep-alive ping awaits its pong (the failed ping is answered with a second Close, which must not panic). The liveness bound applies to windows of at least 6 intervals and 30 ms. The model receives the observed schedule (successful pings before the terminating event, how the run ended) plus a random continuation and must reproduce the ordered log ping-ok/ping-failed/Close/loop-over, the number of keep-alives the server reads, the calls on the connection and the reporting of the loss. A keep-alive is compared as a CLASS: any non-empty run of XML white space (space, tab, CR, LF) written by one Ping, on the connection and in the stream the server reads; what happens for an interval <= 0 is outside the property and not compared beyond nothing-sent-nothing-closed; distinct = scenario parameters; non-trivial = at least 2 pings before the terminating event"
+	return "keepalive goroutine (VerifKeepalive) on a recording stub transport, intervals 1-10 ms: run for T then close quit; quit closed at a random phase of the ticker (0-5 intervals + 0-99 %, incl. exactly on a tick); quit closed before the goroutine starts; Ping failing at the k-th call for every k in 1..10 x interval; interval 0 / negative. Real XMPPTransport over loopback TCP (scripted server records every byte after the stream header): healthy run, server resets / closes the connection after reading n bytes (Close waiting out its timeout or answered at once). Real XMPPTransport over a scripted net.Conn: every conn.Write / conn.Close call, scripted write results (short counts, errors; after an error the connection stays dead for writing while reads block), with and without a real Client receive loop blocked on the same connection and sharing quit: the connection must get closed after the failed keep-alive and the loss be reported (ErrorHandler, Disconnected). End to end: real Client.Connect (KeepaliveInterval 2-5 ms) against the scripted XMPP server (SASL PLAIN + bind), session up for T, then ended by a server reset / the server's </stream:stream> / Client.Disconnect at a random phase; Ping and Close calls logged by a wrapper around the client's transport, keep-alive bytes counted at the server; after the Disconnected event + grace nothing may be pinged for 10 more intervals; sessions ended by a server <stream:error/> with application callbacks that BLOCK (the StateStreamError handler for 6.5 intervals, the error callback for 2; they run synchronously in the receive loop): from the moment the stream error is received (+ half an interval) no Ping call and no keep-alive byte at the server, although the handlers are still running; the same over real STARTTLS with the certificate verified (RootCAs) and with InsecureSkipVerify: the keep-alive bytes must show up in the DECRYPTED stream at the server, the raw socket must carry nothing but TLS records, the session must not be torn down while it is up. WebSocket transport end to end (loopback nhooyr.io/websocket server, RFC 7395 open exchange, keepalive + receive loop started as Client.Connect does): pings answered for T, then the TCP connection underneath is reset / closed: the failed keep-alive (a WebSocket ping control frame, not whitespace: only the closed-so-that-the-loss-is-reported clause is checked there) the loss must be reported exactly once (ErrorHandler + Disconnected) by whichever path notices first - the transport's reader or the failing keep-alive, which then calls Close - and the keep-alive loop be over; and a peer that goes SILENT without closing (a TCP relay stops forwarding; reads just block): only the keep-alive can notice, its ping times out after the library's 5 s, Close follows, the loss is reported once. Sessions on ONE Client object (the Transport is re-used by Resume; every Ping/Close logged with its goroutine, keep-alive bytes counted per server connection): drop then Resume; a stream error during which the keep-alive fails while the receiver sits in Close (ConnectTimeout 1 s), then Resume: the Close entered for session 1 must not close session 2's connection; a stream error whose StateStreamError handler does what a StreamManager does (Disconnect, back-off, Resume, returning only when the new session is up): no keep-alive of the dead session on ANY connection of the client from the stream error until the new session is up; a PostResumeHook that fails once: exactly one keep-alive loop per established session, none left by the failed attempt, its session closed. A negative KeepaliveInterval through NewClient/Connect (a crash of the library's goroutine is found through the crash journal). WebSocket: Disconnect while a keep-alive ping awaits its pong (the failed ping is answered with a second Close, which must not panic). The liveness bound applies to windows of at least 6 intervals and 30 ms. The model receives the observed schedule (successful pings before the terminating event, how the run ended) plus a random continuation and must reproduce the ordered log ping-ok/ping-failed/Close/loop-over, the number of keep-alives the server reads, the calls on the connection and the reporting of the loss. A keep-alive is compared as a CLASS: any non-empty run of XML white space (space, tab, CR, LF) written by one Ping, on the connection and in the stream the server reads; what happens for an interval <= 0 is outside the property and not compared beyond nothing-sent-nothing-closed; distinct = scenario parameters; non-trivial = at least 2 pings before the terminating event"
 }
 
 func c18Suffix(r *rand.Rand) []int {
@@ -271,6 +271,15 @@ func (c18) Gen(r *rand.Rand, tier string) []interface{} {
 			add(&c18In{Kind: "e2e", End: end, IvUs: 1000 * (2 + r.Intn(4)), Ticks: 6 + r.Intn(10), PhasePct: r.Intn(100)})
 		}
 	}
+	// ... by a stream error from the server, with application callbacks that take several intervals
+	// (XMPPTransport.Close then sits out ConnectTimeout, 1 s: few cases)
+	nserr := 2
+	if thorough {
+		nserr = 8
+	}
+	for i := 0; i < nserr; i++ {
+		add(&c18In{Kind: "e2e", End: "serr", IvUs: 1000 * (4 + r.Intn(5)), Ticks: 6 + r.Intn(8), PhasePct: r.Intn(100)})
+	}
 	// ... over STARTTLS, certificate verified or not (the scripted server cannot push inside TLS: no srvclose)
 	for i := 0; i < ne2e; i++ {
 		for _, mode := range []string{"verify", "skip"} {
@@ -289,6 +298,7 @@ func (c18) Gen(r *rand.Rand, tier string) []interface{} {
 	}
 	for i := 0; i < (nre+5)/6; i++ {
 		add(&c18In{Kind: "re", Variant: "staleclose", IvUs: 100000, Ticks: 2})
+		add(&c18In{Kind: "re", Variant: "serrmgr", IvUs: 1000 * (5 + r.Intn(6)), Ticks: 5 + r.Intn(5)})
 	}
 	// a negative KeepaliveInterval through NewClient / Connect
 	add(&c18In{Kind: "e2e", End: "disconnect", IvUs: -1000})
@@ -1019,11 +1029,41 @@ func runKeepaliveE2E(in *c18In, attempt int) (Sx, *c18Obs) {
 	var mu sync.Mutex
 	errCalls, discEvents := 0, 0
 	discCh := make(chan struct{}, 8)
-	client, err := xmpp.NewClient(cfg, xmpp.NewRouter(), func(error) { mu.Lock(); errCalls++; mu.Unlock() })
+	// End "serr": the application's callbacks take their time (they run synchronously in the receive loop)
+	var serrAt time.Time
+	serrSrv := 0
+	var srvRef *scriptedServer
+	client, err := xmpp.NewClient(cfg, xmpp.NewRouter(), func(error) {
+		mu.Lock()
+		errCalls++
+		first := errCalls == 1
+		mu.Unlock()
+		if in.End == "serr" && first {
+			time.Sleep(2 * iv)
+		}
+	})
 	if err != nil {
 		return setupErr("newclient: " + err.Error())
 	}
 	client.SetHandler(func(e xmpp.Event) error {
+		if xmpp.VerifEventState(e) == xmpp.StateStreamError && in.End == "serr" {
+			mu.Lock()
+			first := serrAt.IsZero()
+			if first {
+				serrAt = time.Now() // the stream error has been received: the session is over
+			}
+			mu.Unlock()
+			if first {
+				time.Sleep(iv / 2) // a ping already under way may still complete
+				if logs := srvRef.snapshot(); len(logs) > 0 {
+					w, _ := kaKeepaliveBytes(logs[0].ClearBy)
+					mu.Lock()
+					serrSrv = len(w)
+					mu.Unlock()
+				}
+				time.Sleep(6 * iv) // ... and the handler is in no hurry
+			}
+		}
 		if xmpp.VerifEventState(e) == xmpp.StateDisconnected {
 			mu.Lock()
 			discEvents++
@@ -1035,6 +1075,7 @@ func runKeepaliveE2E(in *c18In, attempt int) (Sx, *c18Obs) {
 		}
 		return nil
 	})
+	srvRef = srv
 	rec := &kaRec{}
 	tr := &kaReal{Transport: xmpp.VerifTransport(client), rec: rec, slow: true, attr: true}
 	xmpp.VerifSetTransport(client, tr)
@@ -1075,20 +1116,24 @@ func runKeepaliveE2E(in *c18In, attempt int) (Sx, *c18Obs) {
 		srv.drop(0)
 	case "srvclose":
 		srv.push(0, "</stream:stream>")
+	case "serr":
+		srv.push(0, sItem{T: "serr", Cond: "system-shutdown"}.xml())
 	default:
 		go client.Disconnect()
 	}
 	// the session has ended when the client says so
 	select {
 	case <-discCh:
-	case <-time.After(5 * time.Second):
+	case <-time.After(5*time.Second + 10*iv):
 	}
 	grace := 8 * iv
 	if grace < 40*time.Millisecond {
 		grace = 40 * time.Millisecond
 	}
 	time.Sleep(grace)
-	rec.add(kaReturn) // from here on the keep-alive loop must be gone
+	if in.End != "serr" {
+		rec.add(kaReturn) // from here on the keep-alive loop must be gone
+	}
 	atEnd := 0
 	if logs := srv.snapshot(); len(logs) > 0 {
 		w, _ := kaKeepaliveBytes(stream(logs[0]))
@@ -1100,6 +1145,18 @@ func runKeepaliveE2E(in *c18In, attempt int) (Sx, *c18Obs) {
 	}
 	time.Sleep(window)
 	evs := rec.snapshot()
+	if in.End == "serr" {
+		// the session was over when the stream error arrived, long before the callbacks returned
+		mu.Lock()
+		at, n := serrAt, serrSrv
+		mu.Unlock()
+		if at.IsZero() {
+			at = time.Now()
+		} else {
+			atEnd = n
+		}
+		evs = kaInsertMarker(evs, at.Add(iv/2))
+	}
 	var wire []byte
 	rawBad := ""
 	if logs := srv.snapshot(); len(logs) > 0 {
@@ -1113,7 +1170,7 @@ func runKeepaliveE2E(in *c18In, attempt int) (Sx, *c18Obs) {
 	o.ErrCalls, o.DiscEvents = errCalls, discEvents
 	mu.Unlock()
 	wsx, units := kaWireSx(wire, o.NSucc, true)
-	if in.End != "srvclose" {
+	if in.End != "srvclose" && in.End != "serr" {
 		wsx, units = kaWireSx(wire, len(o.PingUs), false)
 	}
 	o.Wire = string(wire)
@@ -1123,6 +1180,23 @@ func runKeepaliveE2E(in *c18In, attempt int) (Sx, *c18Obs) {
 		go client.Disconnect() // the transport is still open: let it go (up to ConnectTimeout, in the background)
 	}
 	return L(kaEvsSx(evs), wsx, L(), L(Zi(o.ErrCalls), Zi(o.DiscEvents))), o
+}
+
+// kaInsertMarker puts the "session over" marker into the log at its place in time.
+func kaInsertMarker(evs []kaEv, at time.Time) []kaEv {
+	out := make([]kaEv, 0, len(evs)+1)
+	done := false
+	for _, e := range evs {
+		if !done && e.at.After(at) {
+			out = append(out, kaEv{code: kaReturn, at: at})
+			done = true
+		}
+		out = append(out, e)
+	}
+	if !done {
+		out = append(out, kaEv{code: kaReturn, at: at})
+	}
+	return out
 }
 
 // kaNotTLSRecords: "" if b is a sequence of TLS records (the last one possibly incomplete),
@@ -1408,6 +1482,10 @@ func (c18) Input(inp interface{}) Sx {
 		if in.End == "drop" {
 			end = 1
 		}
+		if in.End == "serr" {
+			// the server goes on reading after its stream error: every keep-alive written arrives
+			lossy, end = false, 3
+		}
 		if len(o.PingUs) > o.NSucc {
 			term, failAt = 1, o.NSucc+1 // a keep-alive hit the dying connection before quit was seen: observed
 		}
@@ -1472,6 +1550,9 @@ func (c18) Oracle(inp interface{}, obs Sx) (string, string) {
 	if firstRet >= 0 && firstRet != len(codes)-1 {
 		for _, c := range codes[firstRet+1:] {
 			if c == kaPingOk || c == kaPingFail {
+				if in.Kind == "e2e" && in.End == "serr" {
+					return fmt.Sprintf("session ended by the server's stream error, yet keep-alives went on while the application's handlers were running (log %v: 3 = stream error received + half an interval)", codes), "ping-after-session-end"
+				}
 				if in.Kind == "e2e" {
 					return fmt.Sprintf("session ended by %s, Disconnected reported, yet keep-alives went on (log %v: 3 = session over + grace)", in.End, codes), "ping-after-session-end"
 				}
@@ -1558,6 +1639,9 @@ func (c18) Oracle(inp interface{}, obs Sx) (string, string) {
 		}
 		if o.DiscEvents < 1 {
 			return "session ended by " + in.End + " but no Disconnected event within 5 s", "loss-not-reported"
+		}
+		if in.End == "serr" && o.SrvFinal != o.SrvAtEnd {
+			return fmt.Sprintf("the server's stream error ended the session; while the application's stream-error handler and error callback were running (8 intervals) the server read %d more keep-alive bytes", o.SrvFinal-o.SrvAtEnd), "ping-after-session-end"
 		}
 		if in.End == "drop" && o.ErrCalls < 1 {
 			return "connection reset by the server but the error callback never ran", "loss-not-reported"
